@@ -54,9 +54,11 @@ def gen_cases(ctx, reps, n_sim):
         xgrid = [round(sc * x, 8) for x in [0.0, 1e-4, 1e-3, 1e-2, 0.05, 0.2, 0.5, 1.0, 2.0, 4.0]]
         if rng.random() < 0.5:
             xgrid = [x for k, x in enumerate(xgrid) if k in (0, 1, 3, 5, 6, 7, 8, 9)]
-        c = D.make_case(rng, d, kind="extreme", space=D.LOG, mu=float(rng.choice([300, 1000, 1000, 3000])), grid=xgrid,
+        c = D.make_case(rng, d, kind="extreme", space=D.LOG, mu=float(rng.choice([1000, 1000, 3000])), grid=xgrid,
                         eps=rng.choice([1e-6, 1e-8, 1e-3]), offedge=0, exotic=False, ties=False, extreme=True,
                         **D.random_options(rng, ctx.tier == "thorough"))
+        c["out_std"] = True              # the API default; the separate standardisation of inside and outside is what
+                                         # puts their sum below the double range
         for u in c["prior"]:
             c["prior"][u][0] = 0.0       # no prior mass at time 0 for a non-sample node (as in every prior tsdate builds)
         cases.append(c)
